@@ -48,7 +48,8 @@ def gen_kinst(rng, nmin=2, nmax=10, m=0, labelled=False, kinds=("feat", "lattice
     dim = rng.randint(1, 3)
     for _ in range(50):
         if kind == "lattice":
-            X = [[float(rng.randint(0, 3)) for _ in range(dim)] for _ in range(N)]
+            lo_ = 0 if pos else -2      # integer-coded features may be negative (-1 / -2 codes)
+            X = [[float(rng.randint(lo_, 3)) for _ in range(dim)] for _ in range(N)]
         elif kind == "jitter":
             # near-duplicates: every distance is tiny but not zero
             sc = 10.0 ** rng.choice([-5, -6, -7, -9])
